@@ -44,19 +44,22 @@ def btRun (cfg : Cfg α) (run : RunFn α) (capital : α) (dates : List Nat) (w0 
     (opAdjust w0 [] capital true true).bind fun w1 =>
     (updRoot cfg d0 w1).bind fun w2 => btLoop cfg run ds w2
 
-/-- a `Backtest` object: the (deep-copied) tree, the `has_run` flag and the outcome -/
+/-- a `Backtest` object: the (deep-copied) tree, its own constructor arguments (initial capital, the dates of its
+    data), the `has_run` flag and the outcome -/
 structure BtObj (α : Type) where
   hasRun : Bool
   w : World α
+  capital : α
+  dates : List Nat
   failed : Option Err := none
 
 /-- `Backtest.run()`: `if self.has_run: return`; the flag is set before anything else happens -/
-def BtObj.run (cfg : Cfg α) (run : RunFn α) (capital : α) (dates : List Nat) (b : BtObj α) : BtObj α :=
+def BtObj.run (cfg : Cfg α) (run : RunFn α) (b : BtObj α) : BtObj α :=
   if b.hasRun then b
   else
-    match btRun cfg run capital dates b.w with
-    | .ok w' => { hasRun := true, w := w', failed := none }
-    | .error e => { hasRun := true, w := b.w, failed := some e }
+    match btRun cfg run b.capital b.dates b.w with
+    | .ok w' => { b with hasRun := true, w := w', failed := none }
+    | .error e => { b with hasRun := true, failed := some e }
 
 /-! ### the shadow copy of a sub-strategy -/
 
@@ -86,26 +89,29 @@ def clockDates : List Nat → Option Nat → List Nat
 
 /-! ### several backtests from one template -/
 
-/-- a user session: one strategy template (already wired), and the backtests constructed from it so far;
-    `Backtest.__init__` deep-copies the template -/
+/-- a user session: one strategy template (already wired) and the backtests constructed from it so far;
+    `Backtest.__init__` deep-copies the template, so a backtest holds a value, not a reference -/
 structure Session (α : Type) where
   template : World α
   bts : List (BtObj α)
 
-inductive SessOp where
-  | construct            -- `bt.Backtest(template, data)`
-  | run (i : Nat)        -- `backtests[i].run()`
+inductive SessOp (α : Type) where
+  | construct (capital : α) (dates : List Nat)   -- `bt.Backtest(template, data, initial_capital=...)`
+  | run (i : Nat)                                -- `backtests[i].run()`
 
-def Session.step (cfg : Cfg α) (run : RunFn α) (capital : α) (dates : List Nat) (s : Session α) : SessOp → Session α
-  | .construct => { s with bts := s.bts ++ [{ hasRun := false, w := s.template }] }
+/-- the backtest `Backtest.__init__` builds from the template as it is now -/
+def Session.fresh (s : Session α) (capital : α) (dates : List Nat) : BtObj α :=
+  { hasRun := false, w := s.template, capital := capital, dates := dates }
+
+def Session.step (cfg : Cfg α) (run : RunFn α) (s : Session α) : SessOp α → Session α
+  | .construct c ds => { s with bts := s.bts ++ [s.fresh c ds] }
   | .run i =>
     match s.bts[i]? with
     | none => s
-    | some b => { s with bts := s.bts.set i (b.run cfg run capital dates) }
+    | some b => { s with bts := s.bts.set i (b.run cfg run) }
 
-def Session.steps (cfg : Cfg α) (run : RunFn α) (capital : α) (dates : List Nat) (s : Session α) (ops : List SessOp) :
-    Session α :=
-  ops.foldl (Session.step cfg run capital dates) s
+def Session.steps (cfg : Cfg α) (run : RunFn α) (s : Session α) (ops : List (SessOp α)) : Session α :=
+  ops.foldl (Session.step cfg run) s
 
 /-! ### truncation of the supplied data -/
 
